@@ -625,6 +625,41 @@ def gen_toy(rng, k):
     return case
 
 
+def gen_toy_phased(rng, k):
+    """two or three copies of ONE major allele, two variants at different sites that the copies can only take as additions (novel
+    or silent variants of another sub-allele), each on exactly one copy's worth of reads, and read fragments that consistently put
+    them in trans (or in cis): the optimum has to place DIFFERENT additions on identical copies (trans) or both on one (cis)"""
+    g = gene("toy")
+    cn, majors = rng.choice([(["1", "1"], [("1", 2)]), (["1", "1", "1"], [("1", 3)]), (["1", "1"], [("3", 2)])])
+    mj = majors[0][0]
+    have = {m.pos for m in g.alleles[mj].func_muts}
+    pool = [v for v in NOVEL if v[0] not in have and not v[1].startswith("ins")]
+    a, b = rng.sample(pool, 2)
+    while a[0] == b[0]:
+        a, b = rng.sample(pool, 2)
+    d = rng.choice([10, 20])
+    n = len(cn)
+    table = {(a[0], a[1]): d, (a[0], "_"): d * (n - 1), (b[0], b[1]): d, (b[0], "_"): d * (n - 1)}
+    for m in g.alleles[mj].func_muts:
+        table[(m.pos, m.op)] = d * n
+    mode = rng.choice(["trans", "trans", "cis"])
+    k_fr = rng.choice([4, 8, 12])
+    phases = []
+    for i in range(k_fr):
+        if mode == "trans":
+            phases.append([f"t{i}a", [[a[0], a[1]], [b[0], "_"]]])
+            phases.append([f"t{i}b", [[a[0], "_"], [b[0], b[1]]]])
+        else:
+            phases.append([f"c{i}a", [[a[0], a[1]], [b[0], b[1]]]])
+            phases.append([f"c{i}b", [[a[0], "_"], [b[0], "_"]]])
+    params = {}
+    if rng.random() < 0.3:
+        params["minor_phase"] = rng.choice([1.0, 2.0])
+    return {"stream": "toy-phased-" + mode, "gene": "toy", "cn": cn,
+            "majors": [{"alleles": majors, "added": [list(a), list(b)] if rng.random() < 0.5 else [], "score": 0.0}],
+            "table": sorted([p, o, c] for (p, o), c in table.items()), "phases": phases, "params": params}
+
+
 def planted_table(g, cn_list, alleles, d):
     """noise-free evidence of the given (major, minor) copies at depth d per copy"""
     from aldy.solutions import CNSolution
@@ -987,6 +1022,7 @@ def run(chk):
     witness_sync(chk)
     cases = load_corpus() + [dict(w, stream="witness") for w in WITNESSES.values()]
     cases += [gen_toy(rng, k) for k in range(200 if quick else 2500)]
+    cases += [gen_toy_phased(rng, k) for k in range(12 if quick else 150)]
     cases += [gen_planted_toy(rng) for _ in range(30 if quick else 300)]
     if not quick:
         for gname, n in [("cyp2c19", 30), ("cyp2c9", 30), ("nudt15", 30), ("tpmt", 30), ("cyp3a5", 30), ("slco1b1", 25), ("cyp2d6", 12)]:
